@@ -944,6 +944,9 @@ class S2Arr:
                 if not -self.k <= idx < self.k:
                     raise ProgExc(IndexError, "row index")
                 return SArr(self.cols[idx], self.n, self.kind, name="row")
+            if isinstance(idx, slice) and all(isinstance(b, int) or b is None for b in (idx.start, idx.stop, idx.step)):
+                # A.T[a:b:c] with concrete bounds: the selected rows (= columns of A), still k' x n
+                return S2Arr(self.cols[idx], self.n, self.kind, transposed=True)
             raise Unsupported("index form on a transposed symbolic 2-D array")
         if isinstance(idx, tuple) and len(idx) == 2 and isinstance(idx[1], int):
             iz = norm_index(eng, idx[0], self.n, "row index")
